@@ -311,6 +311,9 @@ pub fn next_solution<'a>(sn: Rc<RefCell<SolutionNode<'a>>>)
                         // If a cut was executed in the body of this rule, and
                         // the goals after it failed, do not try other rules.
                         if sn_ref.no_backtracking { return None; }
+                        // The body is exhausted. Forget it, so that it is not
+                        // asked again after a later fact has given a solution.
+                        sn_ref.child = None;
                     },
                 } // match
             }
